@@ -53,6 +53,80 @@ def _run_monitor(args):
         return {"monitor": modname, "error": f"{type(e).__name__}: {e}\n{traceback.format_exc()[-2000:]}", "wall_s": round(time.time() - t, 2)}
 
 
+def _child(fn, arg, conn, env):
+    os.environ.update(env)
+    if env.get("PYVC_NO_MODEL_REUSE"):
+        try:
+            from pyvc import interp as _i
+
+            _i.MODEL_REUSE = False
+        except Exception:  # noqa: BLE001
+            pass
+    try:
+        conn.send(fn(arg))
+    except BaseException as e:  # noqa: BLE001
+        conn.send({"__worker_error__": f"{type(e).__name__}: {e}\n{traceback.format_exc()[-1500:]}"})
+    finally:
+        conn.close()
+
+
+def run_jobs(jobs, nproc, timeout_s):
+    """One forked process per job (at most nproc at a time), each with a wall-clock limit.  A worker
+    that dies (z3 can crash natively) or overruns is reported as such for ITS job only - a pool would
+    wait for ever.  jobs: list of (key, fn, arg).  Returns {key: result | {"__crashed__": why}}."""
+    ctx = mp.get_context("fork")
+    pending = list(jobs)
+    running = {}  # key -> (proc, conn, started, fn, arg, attempt)
+    out = {}
+
+    def start(key, fn, arg, attempt):
+        parent, child = ctx.Pipe(duplex=False)
+        env = {"PYVC_NO_MODEL_REUSE": "1"} if attempt else {}
+        p = ctx.Process(target=_child, args=(fn, arg, child, env), daemon=True)
+        p.start()
+        child.close()
+        running[key] = (p, parent, time.time(), fn, arg, attempt)
+
+    while pending or running:
+        while pending and len(running) < nproc:
+            key, fn, arg = pending.pop(0)
+            start(key, fn, arg, 0)
+        time.sleep(0.02)
+        for key in list(running):
+            p, conn, started, fn, arg, attempt = running[key]
+            got = None
+            try:
+                if conn.poll(0):
+                    got = conn.recv()
+            except (EOFError, OSError):
+                got = None
+            if got is not None:
+                out[key] = got
+                p.join(5)
+                if p.is_alive():
+                    p.kill()
+                conn.close()
+                del running[key]
+                continue
+            if not p.is_alive():
+                # died without an answer: a native crash.  Once more without model reuse (the known
+                # trigger), then give up on this job only.
+                conn.close()
+                del running[key]
+                if attempt == 0:
+                    start(key, fn, arg, 1)
+                else:
+                    out[key] = {"__crashed__": f"worker exited with code {p.exitcode} twice (second time with model reuse off)"}
+                continue
+            if time.time() - started > timeout_s:
+                p.kill()
+                p.join(5)
+                conn.close()
+                del running[key]
+                out[key] = {"__crashed__": f"no answer within {timeout_s} s (killed)"}
+    return out
+
+
 def load_findings():
     with open(os.path.join(HERE, "known_findings.json"), encoding="utf-8") as fd:
         return json.load(fd)
@@ -96,12 +170,21 @@ def main():  # noqa: PLR0912, PLR0915
         jobs.append((n, carve_ids, timeout_ms))
     mon_jobs = [(m, tier, seed) for m in monitors.MONITORS.get(prop, [])]
 
-    ctx = mp.get_context("fork")
-    with ctx.Pool(a.jobs) as pool:
-        r1 = pool.map_async(_run_contract, jobs, chunksize=1)
-        r2 = pool.map_async(_run_monitor, mon_jobs, chunksize=1)
-        results = r1.get()
-        mon_results = r2.get()
+    limit = int(os.environ.get("VERIF_JOB_TIMEOUT", "1500" if tier == "quick" else "14400"))
+    answers = run_jobs([(("c", j[0]), _run_contract, j) for j in jobs] + [(("m", j[0]), _run_monitor, j) for j in mon_jobs], a.jobs, limit)
+    results, mon_results = [], []
+    for j in jobs:
+        r = answers[("c", j[0])]
+        if "__crashed__" in r or "__worker_error__" in r:
+            why = r.get("__crashed__") or r.get("__worker_error__")
+            r = {"contract": j[0], "props": [prop], "functions": [], "status": "error", "obligations": 0, "discharged": 0, "refuted": [], "unknown": [], "unsupported": f"worker: {why}",
+                 "paths": 0, "solver_s": 0.0, "wall_s": 0.0, "assumed": [], "samples": []}
+        results.append(r)
+    for j in mon_jobs:
+        r = answers[("m", j[0])]
+        if "__crashed__" in r or "__worker_error__" in r:
+            r = {"monitor": j[0], "error": "worker: " + (r.get("__crashed__") or r.get("__worker_error__")), "wall_s": 0.0}
+        mon_results.append(r)
 
     if a.rebaseline:
         path = os.path.join(HERE, "baseline_obligations.json")
